@@ -3,6 +3,7 @@ use serde_json::Value;
 
 pub mod c01;
 pub mod c05;
+pub mod c06;
 pub mod c07;
 pub mod c09;
 pub mod c11;
@@ -13,6 +14,7 @@ pub fn run(id: &str, tier: Tier) -> i32 {
     match id {
         "C01" => c01::run(tier),
         "C05" => c05::run(tier),
+        "C06" => c06::run(tier),
         "C07" => c07::run(tier),
         "C09" => c09::run(tier),
         "C11" => c11::run(tier),
@@ -30,6 +32,7 @@ pub fn replay(id: &str, path: &str) -> i32 {
         match id {
             "C01" => c01::replay(case),
             "C05" => c05::replay(case),
+            "C06" => c06::replay(case),
             "C07" => c07::replay(case),
             "C09" => c09::replay(case),
             "C11" => c11::replay(case),
